@@ -259,7 +259,14 @@ func (w *scWorld) apply(op scOp) (ok bool) {
 		w.rt.result, w.rt.keep, w.rt.drop = op.Result, op.Keep, op.Drop
 		rec := httptest.NewRecorder()
 		u := fmt.Sprintf("http://t%d:80/metrics?_jobName=job%d&_hash=%d&_scheme=http", op.Hash, op.Job, op.Hash)
-		w.proxy.ServeHTTP(rec, httptest.NewRequest("GET", u, nil))
+		func() {
+			defer func() {
+				if r := recover(); r != nil && r != http.ErrAbortHandler {
+					panic(r)
+				}
+			}()
+			w.proxy.ServeHTTP(rec, httptest.NewRequest("GET", u, nil))
+		}()
 		return true
 	case "restart":
 		if err := w.start(); err != nil {
